@@ -500,6 +500,9 @@ def run_scenario(sc):
     yb = YP()
     for n in names_:
         check(yp.atom(n) is yp.atom(n), "yp.atom(%r) is not yp.atom(%r)" % (n, n))
+        # the `module` argument (kept for compatibility with YieldProlog output) does not name a different atom
+        check(yp.atom(n, "user") is yp.atom(n) and yp.atom(n, module="m2") is yp.atom(n, "user"),
+              "yp.atom(%r, <module>) is not yp.atom(%r)" % (n, n))
         c = guarded("unify across engines", lambda: sum(1 for _ in unify(yp.atom(n), yb.atom(n))))
         check(c == 1, "unify(A.atom(%r), B.atom(%r)) yields %r times" % (n, n, c))
         c = guarded("unify across engines", lambda: sum(1 for _ in unify(yb.atom(n), yp.atom(n + "#"))))
